@@ -650,15 +650,22 @@ func (e *Env) evalCall(n *ast.CallExpr) (Val, bool) {
 				e.err = c.err
 			}
 			return v, ok
-		case "entry":
+		case "entry", "athead":
 			// entry(e): the value of e when the loop was entered from outside
+			// athead(e): the value of e at the head of the current iteration
 			if len(n.Args) != 1 {
-				return e.fail("entry needs one argument")
+				return e.fail("%s needs one argument", id.Name)
 			}
 			if e.loopHead == nil || e.frame == nil || e.frame.loopEntry[e.loopHead] == nil {
-				return e.fail("entry(...) is only meaningful in loop clauses")
+				return e.fail("%s(...) is only meaningful in loop clauses", id.Name)
 			}
 			snap := e.frame.loopEntry[e.loopHead]
+			if id.Name == "athead" {
+				snap = e.frame.loopHeadSnap[e.loopHead]
+				if snap == nil {
+					return e.fail("athead(...): no iteration in progress")
+				}
+			}
 			c := e.child()
 			c.cur = snap.view
 			c.entryCells = snap.cells
